@@ -62,13 +62,16 @@ Dev0(d) == [inp |-> 0, out |-> 0, wds |-> FALSE, wsince |-> None, off |-> 0, blo
             supplied |-> 0, budget |-> cfg.devs[d].budget, cost |-> 0,
             count |-> 0, collected |-> <<>>, revenue |-> 0, value |-> 0, nvh |-> 0]
 
-RECURSIVE DownOf(_, _)
-DownOf(d, x) == IF x > N THEN <<>>
-                ELSE (IF d \in Range(cfg.devs[x].ups) THEN <<x>> ELSE <<>>) \o DownOf(d, x + 1)
+(* downstream lists in connection order: devices are connected when they are created (id order), *)
+(* except those wired late (an upstream with a larger id), which are connected after all others  *)
+RECURSIVE DownOf(_, _, _)
+DownOf(d, x, late) == IF x > N THEN <<>>
+                      ELSE (IF d \in Range(cfg.devs[x].ups) /\ cfg.devs[x].late = late THEN <<x>> ELSE <<>>)
+                           \o DownOf(d, x + 1, late)
 
 S0 == [now |-> 0,
        dev |-> [d \in Devs |-> Dev0(d)],
-       down |-> [d \in Devs |-> DownOf(d, 1)],
+       down |-> [d \in Devs |-> DownOf(d, 1, FALSE) \o DownOf(d, 1, TRUE)],
        ups |-> [d \in Devs |-> cfg.devs[d].ups],
        part |-> <<>>, q |-> {}, pq |-> {}, nextEid |-> 1,
        pool |-> [r \in Resources |-> [used |-> 0, cap |-> cfg.pools[r]]],
@@ -166,6 +169,8 @@ Pred(S, g, p) == LET pr == cfg.devs[g].pred
                    [] pr = "odd"  -> sq % 2 = 1
                    [] pr = "q1"   -> S.part[p].quality = 1
                    [] pr = "q2"   -> S.part[p].quality # 1
+                   [] pr = "qeq2" -> S.part[p].quality = 2
+                   [] pr = "qge3" -> S.part[p].quality >= 3
                    [] OTHER       -> TRUE
 
 (* waiting_for_part_start_time: own for holding devices, earliest of the downstreams otherwise *)
@@ -266,7 +271,8 @@ FinishCycle(S, d) ==
                 S3 == [S2 EXCEPT !.part = [i \in DOMAIN @ |->
                           IF i \in Range(ls)
                           THEN [@[i] EXCEPT !.value = @ + c.vadd,
-                                            !.quality = IF c.qset > 0 THEN 1 + (S2.part[i].seq % c.qset) ELSE @]
+                                            !.quality = IF c.qset > 0 THEN 1 + (S2.part[i].seq % c.qset)
+                                                        ELSE IF c.qinc THEN @ + 1 ELSE @]
                           ELSE @[i]]] IN
             Record([S3 EXCEPT !.dev[d].off = @ + c.foff], "produced_part", d)
       [] OTHER ->   \* handler
@@ -333,7 +339,7 @@ Accept(S, d, p) ==
 Give(S, d, p, depth) ==
     IF depth > 3 * N THEN [ok |-> FALSE, S |-> S]
     ELSE
-    CASE Kind(d) = "gate" ->
+    CASE Kind(d) \in {"gate", "junction"} ->
             IF ~Pred(S, d, p) \/ S.dev[d].blocked THEN [ok |-> FALSE, S |-> S]
             ELSE LET r == GiveFirst(AddHist(S, p, d), SortedDown(AddHist(S, p, d), d), 1, p, depth + 1) IN
                  IF r.ok THEN r ELSE [ok |-> FALSE, S |-> DropLastHist(r.S, p)]
